@@ -129,6 +129,16 @@ def bounded(ctx):
                         probe(label, cls, s[:j] + ch + s[j + 1:])
                         distinct.add((label, j, ch))
             probe(label, cls, s[: len(s) // 2])
+            # near-misses with a further recognition site of the class's cutter inside the matched region (either strand),
+            # in upper, lower and mixed spelling, at the rotation given and with the origin inside the extra site
+            site, a_, k_ = be.enzyme_geometry(cls.cutter)
+            mid = len(s) // 2
+            for ins in (site + "A" * (a_ + k_ + 2), "T" * (a_ + k_ + 2) + gen.rc(site)):
+                t_ = s[:mid] + ins + s[mid:]
+                r_ = mid + 2
+                for sp in (t_, t_.lower(), s[:mid] + ins.lower() + s[mid:], t_[r_:] + t_[:r_], (t_[r_:] + t_[:r_]).lower()):
+                    probe(label, cls, sp)
+                    distinct.add((label, "extra-site", sp[:6]))
     # assemblies mixing valid and invalid records
     from Bio.Restriction import BsaI
     Mod = type("BModule", (core.Entry,), dict(cutter=BsaI))
